@@ -761,6 +761,30 @@ let c12_chk t =
   let start = tz t in let n = ti t in let ids = tlist t n tz in
   "ok=" ^ sb (consecutive_from start ids)
 
+
+(* ---------- C13: subscription life cycle ---------- *)
+(* sublife <n> {op}  ops: CR IN W B CA0 CA1 UN TR DD RR ; prints the state after every "|" marker *)
+let c13_sublife t =
+  let n = ti t in
+  let st = ref s_init in
+  let outs = ref [] in
+  let fmt s =
+    "meta=" ^ (match s.s_meta with MAbsent -> "absent" | MCreated -> "created" | MRunning -> "running" | MCancelled -> "cancelled" | MCompleted -> "completed") ^
+    " restored=" ^ sb (restored_at_start s) ^ " sound=" ^ sb (restore_is_sound s) in
+  for _ = 1 to n do
+    (match tok t with
+     | "|" -> outs := fmt !st :: !outs
+     | "ST" -> st := start_node cancel_returns !st
+     | x ->
+       let o = (match x with
+           | "CR" -> LCreate | "IN" -> LInitial | "W" -> LWrite | "B" -> LBatch
+           | "CA0" -> LCancel false | "CA1" -> LCancel true | "UN" -> LUnregister
+           | "TR" -> LTrip | "DD" -> LDrainDone | "RR" -> LRestoreRun
+           | y -> failwith ("bad op " ^ y)) in
+       st := lrun cancel_returns [o] !st)
+  done;
+  String.concat " # " (List.rev !outs)
+
 (* ---------- dispatch ---------- *)
 let handlers : (string * (toks -> string)) list ref = ref [
   "chunks", c08_chunks;
@@ -775,6 +799,7 @@ let handlers : (string * (toks -> string)) list ref = ref [
   "chk_members", c18_chk;
   "crdtm", c01_crdtm;
   "ivm", c11_ivm;
+  "sublife", c13_sublife;
   "catchup", c12_catchup;
   "chk_stream", c12_chk;
   "authz", c17_authzm;
